@@ -13,12 +13,14 @@ for d in sorted(glob.glob(V + "/seeded/*/")):
         key = (cr.get("first_keys") or [""])[0]
         key = key.split("key=")[1].split(" ::")[0] if "key=" in key else ""
         rows.append((m.get("property"), name, (m.get("needs") or "")[:140].replace("|", "/").replace("\n", " "), c,
-                     "caught" if cr.get("exit") == 1 and cr.get("violation_lines", 0) >= 1
-                     else ("out of scope (see meta.json verifier_note)" if m.get("verifier_note", "").startswith("Not a violation") else "MISSED"), key))
+                     ("retired / out of scope (see meta.json verifier_note)" if m.get("verifier_note", "").startswith("Not a violation")
+                      else ("caught" if cr.get("exit") == 1 and cr.get("violation_lines", 0) >= 1 else "MISSED")), key))
 out = ["# Detection record", "",
        "Independently seeded defects (written by sub-agents that saw only the property text and a scratch worktree; each verified: demo passes on the",
        "clean tree, fails with the patch, 79/79 baseline tests stay green) and the check result on a scratch copy with the patch applied",
-       "(`tools/verify_seed.py`, quick tier).  `first violation key` is the first key the check printed.", "",
+       "(`tools/verify_seed.py`, quick tier).  `first violation key` is the first key the check printed.  Seeds marked retired were valid when written and",
+       "caught then; later `fix:` commits made their mechanism impossible or harmless (the note in meta.json names the commit); patches that stopped applying",
+       "after the fixes were rebased onto the same mechanism (original kept as patch.orig.diff).", "",
        "| property | seeded defect | needs | check | result | first violation key |", "|---|---|---|---|---|---|"]
 for r in rows:
     out.append("| %s | %s | %s | %s | %s | `%s` |" % r)
